@@ -326,6 +326,25 @@ pub fn run(args: &[String]) {
         emit_walk(&c, pol, rng.range(0.0, 2.0 * PI), rng.range(-0.3, 0.3), "general");
       }
     }
+    // small non-zero crystal angle with a TILTED beam: the optic axis is 12°..90° from the beam (the property's domain) while the
+    // relative finite-difference step eps^(1/3)·|theta| of derivative_at becomes tiny
+    for (k, delta) in SCALES.iter().enumerate() {
+      let (w, t_c, _, cp) = new_case(&mut rng);
+      for pol in pols {
+        let sg = if k % 2 == 0 { 1.0 } else { -1.0 };
+        let c = Case { id: meta.id, crystal: &crystal, w, t_c, ct: sg * delta, cp };
+        emit_walk(&c, pol, if rng.coin() { 0. } else { PI }, rng.range(0.25, 1.2), "smalltheta");
+        emit_walk(&c, pol, rng.range(0.0, 2.0 * PI), rng.range(0.25, 1.2), "smalltheta");
+      }
+    }
+    {
+      // crystal angle exactly 0 with a tilted beam (the code's absolute-step branch)
+      let (w, t_c, _, cp) = new_case(&mut rng);
+      for pol in pols {
+        let c = Case { id: meta.id, crystal: &crystal, w, t_c, ct: 0., cp };
+        emit_walk(&c, pol, rng.range(0.0, 2.0 * PI), rng.range(0.25, 1.2), "smalltheta");
+      }
+    }
     // every orientation: crystal angle 0, tiny, negative, beyond 90°, and near the optic axes
     {
       let (w, t_c, _, cp) = new_case(&mut rng);
